@@ -18,6 +18,8 @@ def callName : Eff → String
   | .saveResp _ => "SaveABCIResponses"
   | .appCommit => "CommitSync"
   | .saveState _ => "Save"
+  | .pruneBlocks _ => "PruneBlocks"
+  | .pruneStates _ _ => "PruneStates"
 
 /-- `finalizeCommit`: SaveBlock, then the WAL #ENDHEIGHT, then ApplyBlock, then updateToState —
 the model's `finalizeEffs` has SaveBlock and the marker in this order before the block's effects. -/
@@ -90,6 +92,7 @@ them (facts: every occurrence, in source order, of `fail.Fail` and of the effect
 
 def itemName : Item → String
   | .fail => "fail.Fail"
+  | .prune _ => "pruneBlocks"
   | .eff (.begin _) => "execBlockOnProxyApp"
   | .eff (.deliver _ _) => "execBlockOnProxyApp"
   | .eff (.endBlock _) => "execBlockOnProxyApp"
@@ -120,7 +123,17 @@ theorem model_plan_apply :
 theorem model_plan_finalize :
     dedupAdj (((planHeight { txs := fun _ => [5] } 0 0 0 1).drop 4).map itemName) =
       Facts.c05_failseq_finalize.flatMap (fun n =>
-        if n = "ApplyBlock" then Facts.c05_failseq_apply else if n = "updateToState" then [] else [n]) := by decide
+        -- `pruneBlocks` and `updateToState` share the gap between the same two fail points
+        -- (`finalize_prune_position`); only the former has persistent effects
+        if n = "ApplyBlock" then Facts.c05_failseq_apply else if n = "updateToState" then ["pruneBlocks"] else [n]) := by decide
+
+/-- `cs.pruneBlocks`: the base is read, PruneBlocks, then PruneStates (model: `pruneEffs`), and it
+sits between ApplyBlock's fail point and updateToState in finalizeCommit -/
+theorem prune_order : Facts.c05_prune_order = ["Base", "PruneBlocks", "PruneStates"] := by decide
+theorem finalize_prune_position : Facts.c05_finalize_prune_position.drop 3 =
+    ["ApplyBlock", "fail.Fail", "pruneBlocks", "updateToState", "fail.Fail"] := by decide
+theorem model_prune_list :
+    (pruneList { txs := fun _ => [] } 2 3).map callName = Facts.c05_prune_order.drop 1 := by decide
 
 /-- the mock replay passes the same four fail points of ApplyBlock -/
 theorem model_plan_mock_fail_count :
